@@ -19,13 +19,24 @@ fn main() {
     let mut id: u64 = 0;
     for k in 0..ndb {
         let mut r = Rng::new(args.seed, &format!("c01/db/{}", k));
-        let dbdef = gen_db(&mut r, 3, 6);
+        // size strata: the executor switches to vectorized / parallel / hash paths at ~100 rows
+        // (per table or per join result), so some databases are larger
+        let big = k % 8 == 7;
+        let huge = k % 16 == 11;
+        let dbdef = if huge { gen_db_sized(&mut r, 1, 100, 130) } else { gen_db(&mut r, 3, if big { 14 } else { 6 }) };
         let mut db = load_db(&dbdef);
         let mut cases = Vec::new();
         for _ in 0..per_db {
-            let depth = 1 + r.below(3) as usize;
+            let depth = if huge || big { 1 + r.below(2) as usize } else { 1 + r.below(3) as usize };
             let (q, _tys) = {
-                let mut g = Gen { r: &mut r, db: &dbdef, cfg: GenCfg::default() };
+                let cfg = if huge {
+                    GenCfg { max_from: 1, joins: false, subqueries: false, ..GenCfg::default() }
+                } else if big {
+                    GenCfg { max_from: 2, ..GenCfg::default() }
+                } else {
+                    GenCfg::default()
+                };
+                let mut g = Gen { r: &mut r, db: &dbdef, cfg };
                 g.query(depth)
             };
             let this = id;
